@@ -1,6 +1,7 @@
 //! Dispatch from property ids to engines.
 pub mod codegen;
 pub mod heapbfs;
+pub mod selftest;
 pub mod subst;
 
 use crate::framework::*;
